@@ -14,8 +14,11 @@ Property oracles on the implementation (independent of the model and of the wrap
               that maximum is zero and all of those messages are empty;
   direct   -- ground truth by construction of the case (which alternatives the input matches, their stated
               credit and message), same three demands;
-for every listing order (all permutations up to 4 alternatives in the quick tier / 6 in the thorough tier,
-sampled beyond), with tuple values shuffled, alone and as subgraders of ListGrader / SingleListGrader.
+for every listing order -- StringGrader: all permutations up to 4 alternatives in the quick tier, up to 6 in the
+thorough tier (720 orders for the first twelve 6-alternative cases, 60 sampled afterwards); other classes: all up to
+3 (quick) / 4 (thorough), 12 / 60 sampled beyond -- with tuple values shuffled, alone and as subgraders of ListGrader
+(ordered, unordered) and of a one-item SingleListGrader; plus an exhaustive small scope (every ordered tuple of up to
+2 / 3 alternatives over 2 values x 3 credits x 3 message lengths).
 """
 import copy
 import hashlib
